@@ -517,6 +517,10 @@ pub fn plan_unwinds(nodes: &[u8]) {
     *uni().unwind_once.borrow_mut() = nodes.to_vec();
 }
 
+pub fn unwind_still_planned(node: u8) -> bool {
+    uni().unwind_once.borrow().contains(&node)
+}
+
 pub fn unwinds_fired() -> u32 {
     uni().unwinds.get()
 }
